@@ -97,9 +97,47 @@ def v1(ctx, fx):
                         good.append((sb, tgt))
                 if vac not in [v_ for (v_, _) in tsw["targets"]]:
                     good.append((sb, tsw["otherwise"]))
+        # a set created in this function (fresh, not a field) that receives every key: with the map reset before the loop it holds exactly the
+        # map's keys, so `set.insert(key) == true` is the same test as "not yet in the map"
+        reset_ok = any(w["how"] == "assign" and w["value"] is not None and c07.is_empty_init(fx, peel(w["value"]), COMMON, DECODED) and guarded_block(writer, lp.bb, w["bb"])
+                       for w in (common.struct_field_writes(fx, COMMON, DECODED, fns=[writer]) or []))
+        if reset_ok:
+            for (bb, tt, ft, c) in bool_switches(writer):
+                if c.kind == "call" and c.d["term"].get("name") == "insert" and len(c.kids) == 2 and (c.d["term"].get("self_ty") or "").startswith(unpackmodel.SET_TYS) \
+                        and c07.same_key(c.kids[1], key) and fresh_local_root(c.kids[0]):
+                    good.append((bb, tt))
         chk(ctx, "C03.V1", writer, t.get("line"), "dup:%s" % which, bool(good) and guarded(writer, b, good), "insert dominated by the digest-not-yet-present edge (contains_key==false / Entry::Vacant): a repeated disclosure is an Err",
             "a repeated disclosure silently overwrites the earlier entry (no contains_key check before the insert)")
     ctx.floor("C03.V1", "inserts into the digest maps", ninserts, 2)
+
+
+def guarded_block(fn, site, blk):
+    """every path from the entry to `site` passes block `blk`"""
+    return site not in cfg.reachable(fn, [0], removed_blocks=[blk])
+
+
+def fresh_local_root(v, _seen=None):
+    """the container the call is made on was created in this function by new()/default()/with_capacity() (it is not a parameter or a field of one)"""
+    if _seen is None:
+        _seen = set()
+    x = peel(v)
+    g = 0
+    while g < 60:
+        g += 1
+        if id(x) in _seen:
+            return True  # a cycle through the loop adds no other root
+        if x.kind in ("field", "index", "variant") and x.kids:
+            x = peel(x.kids[0])
+        elif x.kind == "mut" and x.kids:
+            _seen.add(id(x))
+            x = peel(x.kids[0])
+        elif x.kind == "phi":
+            _seen.add(id(x))
+            alts = [k for k in x.kids if k.kind != "cycle"]
+            return bool(alts) and all(fresh_local_root(k, _seen) for k in alts)
+        else:
+            break
+    return x.kind == "call" and x.d["term"].get("name") in ("new", "default", "with_capacity") and not any(peel(k).kind == "param" for k in x.kids)
 
 
 def v2(ctx, fx, U):
@@ -143,7 +181,7 @@ def v2(ctx, fx, U):
                     if is_field(peel(k), DECODED):
                         nuse += 1
                         ctx.finding("C03.V2", fn, "escapes:%s" % nm, "the decoded-disclosure map is passed to %s" % (t.get("resolved") or t.get("callee")), line=t.get("line"))
-    ctx.floor("C03.V2", "uses of the decoded-disclosure map in verifier-reachable code", nuse, 3)
+    ctx.floor("C03.V2", "uses of the decoded-disclosure map in verifier-reachable code", nuse, 2)
     # digest arguments at the call sites of the lookup functions come from `_sd` / `...`
     lookup_fns = set(f.name for (f, b, n) in U.lookups)
     for fn in U.fns:
